@@ -1506,6 +1506,11 @@ class Interp(object):
             self.exec_block(s.orelse, env, fr)
 
     def s_While(self, s, env, fr):
+        h = getattr(fr.st, 'while_handler', None)
+        if h is not None:
+            r = h(self, fr, s, env)
+            if r is not NotImplemented:
+                return r
         n = 0
         while self.truth(self.eval(s.test, env, fr), fr):
             n += 1
